@@ -1,15 +1,18 @@
 """C03 — Leaving a `with model:` block restores the model completely."""
 from contracts import c03_context as C
+from contracts import c03_objective as O
 from props._generic import run_property, replay_with_driver
 
 LEVEL = "other"
 KEYS = ["HistoryManager.__call__", "HistoryManager.reset", "HistoryManager.size", "get_context", "resettable.wrapper",
         "Model.__enter__", "Model.__exit__", "add_cons_vars_to_problem", "remove_cons_vars_from_problem",
         "remove_cons_vars_from_problem.restore_columns"]
+# the objective: set_objective, its nested undo function, the two setters built on it (own hook table: ghost model of the objective)
+OBJECTIVE_KEYS = ["set_objective", "set_objective.reset", "_valid_atoms", "Model.objective@setter", "Reaction.objective_coefficient@setter"]
 
 
 def run(rep):
-    run_property(rep, KEYS, hooks=C.ALL_HOOKS, lemmas=C.lemmas, explanation=(
+    run_property(rep, KEYS, hooks=C.ALL_HOOKS, more=[(OBJECTIVE_KEYS, O.HOOKS)], lemmas=lambda: C.lemmas() + O.lemmas(), explanation=(
         "Deductive (kernel): HistoryManager.reset is proved to replay the recorded undo actions last-in-first-out and to empty the "
         "history (loop invariant over the recursive spec function run, with a decreasing variant), __call__ to append, get_context "
         "to return the innermost context of the object's model or None for every object shape, and the resettable wrapper to "
@@ -37,7 +40,38 @@ def run(rep):
         "empty column nothing needs restoring. Preconditions stated, not proved: constraint names are pairwise different within a "
         "solver; the recorded variables are different. NOT covered deductively: lists / tuples / sets of several objects in `what` (the "
         "engine keeps lists of (object, dict) tuples only with a concrete length), more than two recorded columns, and what "
-        "solver.add / solver.remove themselves do to the matrix (trace events here): bounded driver. That each OTHER context-aware "
+        "solver.add / solver.remove themselves do to the matrix (trace events here): bounded driver. "
+        "OBJECTIVE AND DIRECTION (util.solver.set_objective, its nested undo function reset, its helper _valid_atoms, "
+        "Model.objective setter, Reaction.objective_coefficient setter), over a ghost model of the optlang objective - an Objective object has an opaque "
+        "immutable `expression` and a `direction`, `solver.objective = X` installs that very object, lin(expression) is its "
+        "coefficient map (the ghost objc of C05), all ASSUMED contracts of optlang: set_objective is proved, for a dictionary "
+        "{reaction: coefficient} (ints or finite floats, any number of entries, loop invariant over the ghost enumeration of "
+        "value.items()) on a linear objective, when not additive to install a NEW zero objective with the CURRENT direction and "
+        "then to give every listed reaction +coefficient on its forward and -coefficient on its reverse variable and 0 everywhere "
+        "else, when additive to overwrite exactly those coefficients of the installed objective in place and to leave every other "
+        "coefficient and the direction untouched; on a non-linear objective to raise ValueError with nothing changed; for an optlang "
+        "Objective to install that very objective (a clone into the model's solver - opaque - when it uses foreign variables, "
+        "direction kept; the helper _valid_atoms is proved to return `every optlang Variable occurring in the expression belongs "
+        "to the model's solver` over the assumed views expression.atoms(Variable) and variable.problem), for a sympy expression a new objective with that expression and the CURRENT direction, additively the "
+        "installed objective gets add(old expression, that expression) in place and keeps its direction; for any other type (int, "
+        "str, None) to raise TypeError with nothing changed. Context: without a context nothing is registered; in a context "
+        "EXACTLY ONE undo is registered, in the innermost context, AFTER the change (the solver objective recorded at the moment of "
+        "registration is the final one), and it is the closure reset whose captured reverse_value is an objective OF ITS OWN "
+        "(neither the one installed at entry nor the one installed at exit) holding the expression and the direction in force at "
+        "entry. The nested reset is verified on its own with (model, reverse_value) as closure parameters: it installs the recorded "
+        "objective and then sets its direction to the recorded direction - exactly these two solver calls - and registers nothing. "
+        "Glue lemma (from the very post-conditions, on synthetic states change -> anything -> reset, the captured objective being "
+        "referenced by the closure only): afterwards the solver objective has the entry expression, hence the entry coefficient "
+        "map, and the entry direction. Model.objective setter: the call set_objective(self, X, additive=False) is recorded, and X "
+        "is proved to be: for a sympy expression a new objective with that expression and the CURRENT direction (it used to be "
+        "reset to max: repaired in /repo), an Objective or a dictionary as given, {reaction: 1} for a reaction / identifier / "
+        "index resolved through reactions.get_by_any (assumed for one item), ValueError for an unknown identifier (IndexError / "
+        "TypeError from get_by_any propagate), no call then. Reaction.objective_coefficient setter: exactly the call "
+        "set_objective(self.model, {self: value}, additive=True) for a reaction in a model, AttributeError and no call for a "
+        "detached one. Preconditions stated, not proved: every listed reaction is in a model, different reactions have different "
+        "solver variables and no forward variable is a reverse variable, coefficients are finite. Assumed, not verified: "
+        "optlang's behaviour as modelled, what add() / clone do to an expression "
+        "(uninterpreted), lists of reactions as Model.objective value. That each OTHER context-aware "
         "operation registers a "
         "correct undo, and that undos compose over whole histories and nestings, is NOT proved: bounded driver (full observable "
         "state incl. the raw GLPK problem snapshotted at __enter__ and compared after __exit__ over operation sequences, nestings, "
@@ -46,7 +80,15 @@ def run(rep):
                  "optlang (assumed contracts, ghost matrix A): Constraint.get_linear_coefficients([v]) reads A[c][v]; "
                  "Constraint.set_linear_coefficients({v: x}) writes exactly A[c][v] := x; Container: `name in`, `[name]` by pairwise "
                  "different constraint names; Model.update() writes no coefficient; `variable.problem is solver` decides membership; "
-                 "glue lemma only: a variable that is added again has coefficient 0 in every constraint"])
+                 "glue lemma only: a variable that is added again has coefficient 0 in every constraint",
+                 "optlang objective (assumed, ghost model in contracts/c03_objective.py): an Objective has an immutable opaque "
+                 "expression and a direction; `solver.objective = X` installs the object X itself; interface.Objective(e, direction=d) "
+                 "builds a new objective with exactly these; Objective.set_linear_coefficients overwrites exactly the given "
+                 "coefficients of lin(expression) and keeps linearity; `objective += e` gives add(expression, e) in place; "
+                 "Objective.clone keeps the direction; Zero has no coefficient; objective.is_Linear reads is_lin(expression)",
+                 "assumed in the objective contracts: sympy expression.atoms(Variable) / optlang variable.problem as ghost views, "
+                 "DictList.get_by_any for one int / str / member item, Reaction.forward_variable / reverse_variable (C01), "
+                 "injectivity of reaction -> (forward, reverse) variable (precondition)"])
 
 
 def replay(payload):
